@@ -18,6 +18,7 @@ package main
 // written with arithmetic (`index+1 > n`) is undecided.
 
 import (
+	"fmt"
 	"go/token"
 	"go/types"
 	"sort"
@@ -35,6 +36,13 @@ func accessPath(v ssa.Value, depth int) string {
 	switch x := v.(type) {
 	case *ssa.Parameter:
 		return "param:" + x.Name()
+	case *ssa.Phi:
+		// a loop-carried value (the index / slab of an iterative descent): named by its SSA identity
+		return "phi:" + x.Name()
+	case *ssa.Extract:
+		if c, ok := x.Tuple.(*ssa.Call); ok {
+			return fmt.Sprintf("result:%s#%d@%s", calleeName(c), x.Index, c.Name())
+		}
 	case *ssa.UnOp:
 		if x.Op == token.MUL {
 			if fa, ok := x.X.(*ssa.FieldAddr); ok {
